@@ -406,6 +406,48 @@ def r8_override_and_pitch_order(idx, r):
                       "assemblies of a core with rectangular cells are not where the map puts them")
 
 
+def r9_dispatch_and_explicit_flags(idx, r):
+    """(a) asciiMapFromGeomAndDomain hands out a map class drawn for the requested domain: a `...Full...` layout only for FULL_CORE, a
+    `...Third...` layout only for THIRD_CORE (a one-third corners-up lattice read with the full-core tips-up layout puts the pins at other
+    indices without any error).  (b) flags written explicitly in a component blueprint are the component's flags: nothing is OR-ed onto
+    them; the automatic DEPLETABLE applies only when no flags were given."""
+    f = idx.func(AM + ".asciiMapFromGeomAndDomain")
+    dom = {"Full": "FULL_CORE", "Third": "THIRD_CORE", "Quarter": "QUARTER_CORE"}
+    n = 0
+    for x in [x for x in walk_local(f.node) if isinstance(x, ast.Return) and isinstance(x.value, ast.Name)]:
+        want = next((v for k, v in dom.items() if k in x.value.id), None)
+        if want is None:
+            continue
+        n += 1
+        conds = [norm(t) for t, p in path_conditions(f.node, x) if p]
+        r.require(any(("DomainType." + want) in c and "==" in c for c in conds), f"dispatch:{x.value.id}:only-for-{want}", f, node=x,
+                  msg=f"`{norm(x)}` is reached under {conds}: the {x.value.id} layout is handed out for domains other than {want}, so a map of another symmetry is read with the wrong layout "
+                      "(silently for pin lattices)")
+    for d in [d for d in ast.walk(f.node) if isinstance(d, ast.Dict)]:
+        for kx, vx in zip(d.keys, d.values):
+            if isinstance(kx, ast.Tuple) and len(kx.elts) == 2 and isinstance(vx, ast.Name):
+                want = next((v for k, v in dom.items() if k in vx.id), None)
+                if want is None:
+                    continue
+                n += 1
+                r.require(norm(kx.elts[1]).endswith("DomainType." + want), f"dispatch-table:{vx.id}:keyed-by-{want}", f, node=kx, msg=f"the {vx.id} layout is registered for `{norm(kx.elts[1])}`")
+    if n < 3:
+        raise AnalysisError(f"asciiMapFromGeomAndDomain: only {n} domain-specific layouts found")
+    g = idx.func("armi.reactor.blueprints.componentBlueprint._setComponentFlags")
+    comp, flg = g.params()[0], g.params()[1]
+    sts = [s_ for s_ in iter_stores(g.node) if s_.chain == f"{comp}.p.flags"]
+    if len(sts) < 2:
+        raise AnchorMissing("_setComponentFlags: explicit assignment and automatic DEPLETABLE")
+    for s_ in sts:
+        conds = {(norm(t), p) for t, p in path_conditions(g.node, s_.stmt)}
+        explicit = s_.kind == "assign" and isinstance(s_.value, ast.Call) and dotted(s_.value.func) == "Flags.fromString"
+        if explicit:
+            r.require((f"{flg} is not None", True) in conds or (f"{flg} is None", False) in conds, "flags:explicit-applied-when-given", g, node=s_.stmt, msg="explicit flags are applied when given")
+        else:
+            r.require((f"{flg} is not None", False) in conds or (f"{flg} is None", True) in conds, "flags:automatic-only-without-explicit", g, node=s_.stmt,
+                      msg=f"`{norm(s_.stmt)}` also runs when the blueprint gave explicit flags: the component gets flags the blueprint does not name (DEPLETABLE switches depletion on for it)")
+
+
 def run(idx, chk):
     chk.explanation = (
         "C18 is a relation between an input document and an object graph; static analysis claims only: (1) each lattice-map class reads and "
@@ -430,3 +472,5 @@ def run(idx, chk):
                  necessary="'places, at every location named in the core and pin lattice maps (text maps and explicit lists alike), an assembly of the specified design'")
     chk.run_rule("R18.8", "component-specific material modifications override block-wide ones; an inferred Cartesian pitch keeps its (x, y) order", lambda r: r8_override_and_pitch_order(idx, r), floor=2,
                  necessary="composition 'after the requested material modifications'; assemblies 'at every location named in the core map'")
+    chk.run_rule("R18.9", "map layouts are handed out for their own domain only; explicit component flags are final", lambda r: r9_dispatch_and_explicit_flags(idx, r), floor=5,
+                 necessary="the built reactor has the components, positions and flags the blueprint text specifies")
